@@ -54,6 +54,10 @@ pub struct Outcome {
     pub nontrivial: bool,
     /// event log (no clocks, no pids): diffed by the determinism self-test
     pub log: Vec<String>,
+    /// enumerating workloads: sub-cases evaluated in this run / distinct non-trivial ones among
+    /// them (0 = count the run itself)
+    pub evals: u64,
+    pub distinct: u64,
 }
 
 pub struct Ctx {
@@ -78,7 +82,8 @@ pub trait Workload: Sync {
     }
     fn rule(&self) -> String;
     fn assumptions(&self) -> Vec<String>;
-    fn generate(&self, seed: u64, tier: Tier) -> Self::Case;
+    /// `index` is the run number within the batch (enumerating workloads slice their space by it)
+    fn generate(&self, seed: u64, index: u64, tier: Tier) -> Self::Case;
     fn execute(&self, case: &Self::Case, ctx: &mut Ctx) -> Result<Outcome, HarnessError>;
     /// structurally smaller candidate cases, most aggressive first
     fn shrink(&self, case: &Self::Case) -> Vec<Self::Case>;
@@ -89,6 +94,14 @@ pub trait Workload: Sync {
     /// a compact rendering for evidence.samples
     fn sample_view(&self, case: &Self::Case) -> Value {
         serde_json::to_value(case).unwrap_or(Value::Null)
+    }
+    /// does a complete batch at this tier enumerate a finite space completely
+    fn exhaustive(&self, _tier: Tier) -> bool {
+        false
+    }
+    /// number of runs a batch needs at this tier (None = the default plan)
+    fn runs_needed(&self, _tier: Tier) -> Option<u64> {
+        None
     }
     /// extra coverage keys computed at the end of a batch
     fn extra_coverage(&self) -> BTreeMap<String, Value> {
@@ -110,6 +123,8 @@ pub struct Found {
 }
 
 pub struct BatchResult {
+    /// runs completed
+    pub runs: u64,
     pub evaluations: u64,
     pub distinct_nontrivial: u64,
     pub samples: Vec<Value>,
@@ -138,7 +153,7 @@ pub fn worker_main<W: Workload>(w: &W, tier: Tier, base_seed: u64, start: u64, s
             break;
         }
         let seed = mix(base_seed, i);
-        let case = w.generate(seed, tier);
+        let case = w.generate(seed, i, tier);
         let mut ctx = Ctx::new();
         match w.execute(&case, &mut ctx) {
             Err(e) => {
@@ -153,6 +168,8 @@ pub fn worker_main<W: Workload>(w: &W, tier: Tier, base_seed: u64, start: u64, s
                     "nontrivial": o.nontrivial,
                     "key": w.case_key(&case),
                     "log": fnv_str(&o.log.join("\n")),
+                    "evals": o.evals,
+                    "distinct": o.distinct,
                     "violation": o.violation.as_ref().map(|(s, m)| json!({"sig": s, "msg": m, "case": serde_json::to_value(&case).unwrap()})),
                     "sample": if i < 3 && o.nontrivial { w.sample_view(&case) } else { Value::Null },
                 });
@@ -200,6 +217,8 @@ pub fn run_batch<W: Workload>(w: &W, tier: Tier, base_seed: u64, plan: &BatchPla
         children.push(cmd.spawn().expect("spawn worker"));
     }
     let mut evaluations = 0u64;
+    let mut unit_evals = 0u64;
+    let mut unit_distinct = 0u64;
     let mut capped = false;
     let mut keys: BTreeSet<u64> = BTreeSet::new();
     let mut samples: BTreeMap<u64, Value> = BTreeMap::new();
@@ -233,6 +252,8 @@ pub fn run_batch<W: Workload>(w: &W, tier: Tier, base_seed: u64, plan: &BatchPla
             if let Some(j) = l.strip_prefix("RUN ") {
                 let Ok(v) = serde_json::from_str::<Value>(j) else { continue };
                 evaluations += 1;
+                unit_evals += v["evals"].as_u64().unwrap_or(0);
+                unit_distinct += v["distinct"].as_u64().unwrap_or(0);
                 let i = v["i"].as_u64().unwrap_or(0);
                 logs.insert(i, v["log"].as_u64().unwrap_or(0));
                 if v["nontrivial"].as_bool().unwrap_or(false) {
@@ -282,8 +303,9 @@ pub fn run_batch<W: Workload>(w: &W, tier: Tier, base_seed: u64, plan: &BatchPla
     let mut found: Vec<Found> = found.into_values().collect();
     found.sort_by_key(|f| f.index);
     BatchResult {
-        evaluations,
-        distinct_nontrivial: keys.len() as u64,
+        runs: evaluations,
+        evaluations: if unit_evals > 0 { unit_evals } else { evaluations },
+        distinct_nontrivial: if unit_evals > 0 { unit_distinct } else { keys.len() as u64 },
         samples: samples.into_values().take(3).collect(),
         found,
         wall_s: start.elapsed().as_secs_f64(),
@@ -541,12 +563,13 @@ pub fn check<W: Workload>(w: &W, tier: Tier, plan: BatchPlan) -> i32 {
     cov.insert("distinct_nontrivial".into(), json!(r.distinct_nontrivial));
     cov.insert("rule".into(), json!(w.rule()));
     cov.insert("samples".into(), json!(r.samples));
-    cov.insert("exhaustive".into(), json!(false));
+    cov.insert("exhaustive".into(), json!(w.exhaustive(tier) && !r.capped && r.runs == plan.runs));
+    cov.insert("runs".into(), json!(r.runs));
     cov.insert("runs_planned".into(), json!(plan.runs));
     cov.insert("stopped_by_wall_cap".into(), json!(r.capped));
-    cov.insert("runs_per_hour".into(), json!((r.evaluations as f64 / hours.max(1e-9)).round()));
+    cov.insert("runs_per_hour".into(), json!((r.runs as f64 / hours.max(1e-9)).round()));
     cov.insert("simulated_processes_per_hour".into(), json!((procs as f64 / hours.max(1e-9)).round()));
-    cov.insert("seeds".into(), json!(format!("run i uses mix(VERIF_SEED={seed}, i), i in 0..{}", r.evaluations)));
+    cov.insert("seeds".into(), json!(format!("run i uses mix(VERIF_SEED={seed}, i), i in 0..{}", r.runs)));
     cov.insert("event_log_digest".into(), json!(format!("{:016x}", r.log_digest)));
     cov.insert("simulation".into(), acct_pretty(&r.acct));
     cov.insert("real_vs_stub".into(), json!(REAL_STUB));
@@ -575,7 +598,7 @@ pub fn check<W: Workload>(w: &W, tier: Tier, plan: BatchPlan) -> i32 {
     println!(
         "{}: {} runs ({} distinct non-trivial), {} simulated processes, {:.1}s, violations={}",
         w.property(),
-        r.evaluations,
+        r.runs,
         r.distinct_nontrivial,
         procs,
         r.wall_s,
